@@ -656,7 +656,10 @@ class PteraTransformer(NodeTransformer):
             x: int = _ptera_interact('x', int)
         """
         return self.make_interaction(
-            node.target, self._ann(node.annotation), node.value, orig=node
+            node.target,
+            self._ann(node.annotation),
+            node.value and self.visit(node.value),
+            orig=node,
         )
 
     def visit_Assign(self, node):
@@ -674,7 +677,7 @@ class PteraTransformer(NodeTransformer):
             ass_all = ast.copy_location(
                 ast.Assign(
                     targets=[ast.Name(id=var_all, ctx=ast.Store())],
-                    value=node.value,
+                    value=value,
                 ),
                 node,
             )
@@ -693,6 +696,9 @@ class PteraTransformer(NodeTransformer):
                 )
             return accum
 
+        # The value may itself contain bindings (walrus) or a yield
+        value = self.visit(node.value)
+
         targets = node.targets
         if len(targets) > 1:
             return _decompose(targets, lambda value, i: value)
@@ -707,9 +713,7 @@ class PteraTransformer(NodeTransformer):
                 ),
             )
         else:
-            return self.make_interaction(
-                targets[0], None, node.value, orig=node
-            )
+            return self.make_interaction(targets[0], None, value, orig=node)
 
     def visit_AugAssign(self, node):
         if isinstance(node.target, ast.Name) and self.should_instrument(
